@@ -98,6 +98,11 @@ func evalC03(c string) Result {
 	switch f[0] {
 	case "C03.host", "C03.domain", "C03.srv":
 		kind := map[string]int{"C03.host": 0, "C03.domain": 1, "C03.srv": 2}[f[0]]
+		// the validators are functions of their argument: what was validated before (the same
+		// string by the more permissive validators, as a resolver does on its way down) is irrelevant
+		_ = netutil.ValidateDomainName(s)
+		_ = netutil.ValidateSRVDomainName(s)
+		_ = netutil.IsValidHostname(s)
 		switch kind {
 		case 0:
 			err = netutil.ValidateHostname(s)
